@@ -339,6 +339,74 @@ def ob_alamouti(Nr):
     return verify(body, check_side=False, timeout_ms=120000)
 
 
+@obligation("schemes/rejected_channel_leaves_the_object_unchanged", params=[{"scheme": s} for s in ("Alamouti", "MRT", "Blast", "MRC")], timeout=200,
+            desc="exceptional postcondition of set_channel_matrix / set_noise_var on a USED object: a call that is rejected (Alamouti: Nt != 2 "
+                 "given as a 2-D array; MRT: more than one receive antenna; Blast/MRC: negative noise variance) raises ValueError and the object keeps working with the channel it had: decode(H encode(x)) == x "
+                 "still holds for the symbolic channel set before")
+def ob_rejected(scheme):
+    def body(c, it):
+        from pyphysim.mimo import mimo
+        x = np.empty(2, dtype=object)
+        x[0], x[1] = c.var("x0", "complex"), c.var("x1", "complex")
+        if scheme == "Alamouti":
+            H = _cmat(c, "H", 2, 2)
+            bads = [("set_channel_matrix", _cmat(c, "B", 2, 3)), ("set_channel_matrix", _cmat(c, "b1", 2, 1)),
+                    ("set_channel_matrix", _cmat(c, "b4", 1, 4))]
+        elif scheme == "MRT":
+            H = np.empty((1, 2), dtype=object)
+            H[0, 0], H[0, 1] = sym.polar(c, "h0"), sym.polar(c, "h1")
+            bads = [("set_channel_matrix", _cmat(c, "B", 2, 2)), ("set_channel_matrix", _cmat(c, "B3", 3, 1))]
+        elif scheme == "Blast":
+            H = _cmat(c, "H", 2, 2)
+            bads = [("set_noise_var", -1.0), ("set_noise_var", -1e-9)]
+        else:
+            H = _cmat(c, "H", 2, 1)
+            bads = [("set_noise_var", -0.5)]
+        o = it.call(getattr(mimo, scheme), [H])
+        goals = []
+        rx0 = np.dot(H, it.call(it.getattr(o, "encode"), [x]))
+        goals.append(Goal("before: decode(H encode(x)) == x", _meq(it.call(it.getattr(o, "decode"), [rx0]), x)))
+        for meth, arg in bads:
+            label = "%s(%s)" % (meth, "array of shape %s" % (np.shape(arg),) if isinstance(arg, np.ndarray) else arg)
+            try:
+                it.call(it.getattr(o, meth), [arg])
+                goals.append(Goal("%s is rejected" % label, False))
+                continue
+            except PyRaise as pr:
+                goals.append(Goal("%s raises ValueError" % label, isinstance(pr.exc, ValueError)))
+            enc = it.call(it.getattr(o, "encode"), [x])
+            dec = it.call(it.getattr(o, "decode"), [np.dot(H, enc)])
+            goals.append(Goal("after the rejected %s: decode(H encode(x)) == x with the channel set before" % label, _meq(dec, x)))
+        return goals
+
+    def rp(mv):
+        from pyphysim.mimo import mimo
+        try:
+            rr = np.random.RandomState(31)
+            shapes = {"Alamouti": (2, 2), "MRT": (1, 3), "Blast": (3, 2), "MRC": (3, 1)}
+            H = rr.randn(*shapes[scheme]) + 1j * rr.randn(*shapes[scheme])
+            o = getattr(mimo, scheme)(H)
+            n = 2 if scheme in ("Alamouti", "Blast") else 2
+            x = rr.randn(n) + 1j * rr.randn(n)
+            bads = {"Alamouti": [("set_channel_matrix", rr.randn(2, 3) + 0j), ("set_channel_matrix", rr.randn(1, 4) + 0j)],
+                    "MRT": [("set_channel_matrix", rr.randn(2, 2) + 0j)], "Blast": [("set_noise_var", -1.0)],
+                    "MRC": [("set_noise_var", -0.5)]}[scheme]
+            for meth, arg in bads:
+                try:
+                    getattr(o, meth)(arg)
+                    return {"confirmed": True, "scheme": scheme, "call": meth, "argument": repr(arg)[:100], "observed": "accepted"}
+                except ValueError:
+                    pass
+                dec = o.decode(H @ o.encode(x))
+                if not (np.shape(dec) == x.shape and np.abs(dec - x).max() <= 1e-9):
+                    return {"confirmed": True, "scheme": scheme, "history": "valid channel, rejected %s (ValueError caught), encode, channel, decode" % meth,
+                            "max_abs_error": float(np.abs(np.ravel(dec)[:x.size] - x).max())}
+            return {"confirmed": False, "note": "real objects are unchanged by rejected calls"}
+        except Exception as e:
+            return {"confirmed": False, "error": "replay crashed: %r" % (e,)}
+    return verify(body, check_side=False, timeout_ms=120000, replay=rp)
+
+
 # ------------------------------------------------------------------ SVD / GMD schemes through the svd contract
 def _unitary(c, tag, n, kind):
     """every orthogonal (kind 'r') / unitary (kind 'c') n x n matrix for n in {2, 3}, written with angle atoms (cos/sin of symbolic
